@@ -960,7 +960,15 @@ class Interp:
             return r
         if not force_body and not self.domain.may_inline(self, fi):
             raise Unsupported("call to %s: no contract and not inlinable" % fi.qualname)
-        return self.run_body(fi, args, kwargs)
+        r = self.run_body(fi, args, kwargs)
+        if fi.is_memoised and isinstance(r, SV):
+            # functools.lru_cache: the object returned may be the one handed to an earlier caller with an equal
+            # key -- it is not freshly made for this call (ghost mark read by ownership postconditions)
+            try:
+                r.memo_shared = True
+            except AttributeError:
+                pass
+        return r
 
     def run_body(self, fi, args, kwargs):
         self.depth += 1
